@@ -997,7 +997,8 @@ func c16CoqDump(p *c16PF) string {
 		c16CoqByteLists(pats), fp, c16CoqByteLists(lo), c16CoqByteLists(hi), c16CoqNatLists(bk), isFat, p.cfgfp)
 }
 
-func (c *c16Ctx) writeCoq(path string, pfs []*c16PF, maxCases int) (int, []int) {
+func (c *c16Ctx) writeCoq(path string, pfs []*c16PF, maxCases int) (int, []int, map[string]int) {
+	expectKinds := map[string]int{}
 	var sb strings.Builder
 	sb.WriteString("(* generated by `harness c16`; do not edit *)\n")
 	sb.WriteString("From CV Require Import Teddy.\nRequire Import List NArith ZArith.\nImport ListNotations.\nOpen Scope N_scope.\n\n")
@@ -1035,6 +1036,7 @@ func (c *c16Ctx) writeCoq(path string, pfs []*c16PF, maxCases int) (int, []int) 
 			i, cs.pf.dumpName, coqBytes(cs.hay), cs.start, cs.api, cs.obsStart, cs.obsEnd)
 		if cs.bad {
 			expectBad = append(expectBad, i)
+			expectKinds[cs.pf.kind]++
 		}
 	}
 	sb.WriteString("\n].\n\n")
@@ -1045,7 +1047,7 @@ func (c *c16Ctx) writeCoq(path string, pfs []*c16PF, maxCases int) (int, []int) 
 	if err := os.WriteFile(path, []byte(sb.String()), 0o644); err != nil {
 		fatal("c16: %v", err)
 	}
-	return len(chosen), expectBad
+	return len(chosen), expectBad, expectKinds
 }
 
 // ---------------------------------------------------------------------------
@@ -1110,9 +1112,17 @@ func c16Main(args []string) int {
 		}
 	}
 
-	ncases, expectBad := c.writeCoq(*out, pfs, *n)
+	ncases, expectBad, expectKinds := c.writeCoq(*out, pfs, *n)
 	st.CoqCases = ncases
+	// ids of the emitted Coq cases on which the Go-side oracle already disagreed with the
+	// implementation (so M = MS must be exactly this list and MM = []).  Since fix d598647
+	// (FindMatch takes the lowest pattern id over all candidate buckets) only the
+	// Aho-Corasick prefilter kinds may appear here.
+	if expectBad == nil {
+		expectBad = []int{}
+	}
 	st.Extra["coq_cases_expected_in_M"] = expectBad
+	st.Extra["coq_cases_expected_in_M_kinds"] = expectKinds
 	st.Evaluations = c.evals
 	st.Distinct = len(c.distinct)
 	keys := make([]string, 0, len(c.viol))
